@@ -71,6 +71,9 @@ def finding_key(req, obs, detail):
         path = m.group(2)
         # the last const mark of the access path is followed by a struct member projection: the checker types a member of a
         # const struct with the member's declared type alone (`const` of the object is lost)
+        # a member of a constant buffer: its type is registered without const (unlike extern globals)
+        if path.startswith("cbuffer") and not re.search(r"^cbuffer(\[a\])?:c.*:c", path):
+            return "write to a member of a constant buffer (cbuffer members are not registered as const)"
         if re.search(r":c[^:]*>mem", path):
             return "write through a struct member of a const object (StructMember drops the object's const)"
         # a whole array whose elements are const: the array type itself carries no modifier
